@@ -178,6 +178,7 @@ func c04(r *rand.Rand, tier string, tr *trace.Buf) {
 	junkCases(r, tier, tr)
 	msgLengthSweep(r, tier, tr)
 	pathKeyCases(r, tier, tr)
+	msgLengthPathKeys(r, tier, tr)
 }
 
 // pathKeyCases: valid triples for one-path keys of EVERY height 1..30 under every descriptor height that
@@ -294,6 +295,30 @@ func msgLengthSweep(r *rand.Rand, tier string, tr *trace.Buf) {
 			e.Genuine = false
 			e.Out, e.Intact = verifyOut(0, v, sig, pk)
 			tr.Emit(e)
+		}
+	}
+}
+
+// msgLengthPathKeys: valid triples of one-path keys for message lengths around every block boundary of the
+// three hash functions (thorough: every length up to 1400); the genuine triple verifies, the message with its
+// last bit flipped does not
+func msgLengthPathKeys(r *rand.Rand, tier string, tr *trace.Buf) {
+	for hf := 0; hf < 3; hf++ {
+		for _, L := range sweepLengths(r, tier) {
+			if L > 70000 {
+				continue
+			}
+			t := pathKey(r, 4, hf, uint32(r.Intn(16)), 4, L)
+			e := vEvent{Ev: "case", Class: "len-path-key", W: 16, H: 4, BaseHf: hf, Idx: t.idx, SigLen: len(t.sig), B0: int(t.pk[0]), B1: int(t.pk[1]), B2: int(t.pk[2]), Genuine: true, Same16: true}
+			e.Out, e.Intact = verifyOut(0, t.msg, t.sig, t.pk)
+			tr.Emit(e)
+			if L > 0 {
+				v := dup(t.msg)
+				v[L-1] ^= 1
+				e.Class, e.Genuine = "len-path-key-message-variant", false
+				e.Out, e.Intact = verifyOut(0, v, t.sig, t.pk)
+				tr.Emit(e)
+			}
 		}
 	}
 }
